@@ -41,7 +41,7 @@ def rules(model: Model, tier: str) -> List[RuleResult]:
 
     ac.ac1_arity(model, fc, R1)
     ac.ac2_frozen_none(fc, R2)
-    ac.ac3_create_graph(model, R3, files={SOLVE_PUB})
+    ac.ac3_create_graph(model, R3, files={SOLVE_PUB, "xitorch/_core/linop.py"})   # incl. the adjoint trick behind rmv/rmm
     ac.ac4_allow_unused(fc, R4)
     ac.ac5_options_forwarding(model, fc, R5, {"solve"})
     ac.ac6_layout(model, fc, R6)
